@@ -123,7 +123,13 @@ where
             st.violation(viol("wrong-degrees-of-freedom-for-the-crystal-family", c, json!({"stage": k, "free_parameters": cur.generate_basis().len(), "expected": libx::expected_dof(group), "family": start.family})));
             return;
         }
-        let d = declared(&start, oblique);
+        let d = match libx::to_basis_order(group, &declared(&start, oblique)) {
+            Ok(d) => d,
+            Err(e) => {
+                st.inconclusive.push(e);
+                return;
+            }
+        };
         let input = if via_clone { cur.clone() } else { cur };
         let rr = mc::run_real(input, cfg, Some(d.clone()), false, false);
         st.add("proposals_range_checked", rr.report.monitor.calls as u64);
